@@ -463,9 +463,15 @@ def make_midmeasure_divchange_part(rng, late=None):
         change = t + 2 * q
         m_end = change + 2 * q * f
         part.add(S.Measure(number=n_before + 1), m_start, m_end)
+        follow = rng.random() < 0.6
+        if follow:
+            # (the barlines of the next measure are part of the skeleton too)
+            part.add(S.Measure(number=n_before + 2), m_end, m_end + 4 * q * f)
         from partitura.io.importmusicxml import DYN_DIRECTIONS
         part.add(DYN_DIRECTIONS["f"]("f", staff=None), change + q * f)
         part.set_quarter_duration(change, q * f)
+        if follow:
+            part.add(S.Note("C", 5, id="nf", voice=1, staff=1, symbolic_duration={"type": "whole"}), m_end, m_end + 4 * q * f)
         part.add(S.Note("G", 4, id=f"n{k}", voice=1, staff=1, symbolic_duration={"type": "half"}), t, t + 2 * q)
         k += 1
         for j in range(2):
